@@ -259,14 +259,20 @@ func (t *Template) expectString(context string) string {
 func (t *Template) parseTemplate(cacheAfterParsing bool) (next Node) {
 	t.Root = t.newList(t.peek().pos)
 	// {{ extends|import stringLiteral }}
+	// white space is dropped only next to extends/import clauses: white space in front of the content of
+	// a template that has no such clause belongs to the output
+	var skipped []item
+	sawClause := false
 	for t.peek().typ != itemEOF {
 		delim := t.next()
 		if delim.typ == itemText && strings.TrimSpace(delim.val) == "" {
+			skipped = append(skipped, delim)
 			continue //skips empty text nodes
 		}
 		if delim.typ == itemLeftDelim {
 			token := t.nextNonSpace()
 			if token.typ == itemExtends || token.typ == itemImport {
+				sawClause = true
 				s := t.expectString("extends|import")
 				if token.typ == itemExtends {
 					if t.extends != nil {
@@ -294,6 +300,12 @@ func (t *Template) parseTemplate(cacheAfterParsing bool) (next Node) {
 		} else {
 			t.backup()
 			break
+		}
+	}
+
+	if !sawClause {
+		for _, text := range skipped {
+			t.Root.append(t.newText(text.pos, text.val))
 		}
 	}
 
